@@ -19,6 +19,9 @@
 (*                     fixed point: m_fix, res_fix, chi2map_fix            *)
 (*   chi2_fix, rchi2_fix, nn_fix, ll_fix, fom_fix   round(value*LogScale)  *)
 (*   same           all outputs bit-identical to the junk = 0 run          *)
+(*   hist, step     dataset history of the fit: hist = "none", or the kind *)
+(*                  of history with step = 0 for the earlier fit (judged   *)
+(*                  against ITS arrays) and step = 1 for the fit after it  *)
 (*   order, nth     the order in which the quantities were read (the       *)
 (*                  definitions do not depend on it) and whether this is   *)
 (*                  the first or the second fit built on the same dataset  *)
@@ -149,10 +152,14 @@ Clauses(r) ==
 \* signature of the failing class: the call site (residual_flux_fraction_map has its own records), else the
 \* quantity (first failing clause), the evaluation mode, and for inversions whether the object list mixes
 \* regularised and unregularised objects
+\* a record judged after a dataset history (step > 0: another dataset was fitted before on the same, a copied or
+\* a parent dataset object) carries that in its signature
+AfterHistory(r) == IF r.hist # "none" /\ r.step > 0 THEN ":after-dataset-history" ELSE ""
 Sig(r, f) ==
-    IF r.api = "rff" THEN "residual_flux_fraction_map"
+    IF r.api = "rff" THEN "residual_flux_fraction_map" \o AfterHistory(r)
     ELSE f[1] \o ":" \o r.mode
          \o (IF r.hasinv /\ "inv" \in DOMAIN r THEN (IF AnyReg(r.inv.objs) /\ ~ AllReg(r.inv.objs) THEN ":MixedRegularization" ELSE ":inversion") ELSE "")
+         \o AfterHistory(r)
 
 Want(r) ==
     IF r.api = "rff" /\ WellFormed(r)
@@ -172,7 +179,7 @@ Want(r) ==
     ELSE [regidx |-> << >>]
 
 TraceInit == /\ i = 1
-             /\ shape = <<1, 1>> /\ U = {} /\ pix = << >> /\ sky = 0 /\ inv = NoInv /\ phase = "trace" /\ obs = << >>
+             /\ shape = <<1, 1>> /\ U = {} /\ pix = << >> /\ sky = 0 /\ inv = NoInv /\ phase = "trace" /\ obs = << >> /\ hist = << >>
 
 TraceNext ==
     /\ i <= Len(Trace)
